@@ -124,11 +124,201 @@ register(Contract(
     ensures=[
         # the category is the documented function of: discovery error, number of files, per-file failures (g_nfail),
         # per-file fixes (g_nfix), reported rule failures
-        "result == doc_category(did_error_scanning_files, len(files_to_scan), use_standard_in, "
+        "result == doc_category(did_error_scanning_files, old(len(files_to_scan)), use_standard_in, "
         "(g_nfail > 0) if not use_standard_in else (not g_stdin_ok), g_nfix > 0, self.__plugins.number_of_scan_failures)",
         # C19: a discovery error means nothing is scanned
         "implies(did_error_scanning_files, not g_called)",
+        "is_category(result)",
     ],
     raises=[Raises("SystemExit", code=SYSERR), Raises("Exception")],
     modifies=["*", "number_of_scan_failures"],
+))
+
+
+# ---------------------------------------------------------------------------------------------------------
+# main(): every way out is ReturnCodeHelper.exit_application with the documented code for the active scheme.
+@spec_fn("is_doc_code")
+def is_doc_code(ex, st, args):
+    """is_doc_code(code, scheme): code is table[scheme][c] for some category c"""
+    code, scheme = args
+    minimal = scheme.z == V.S(z3.IntVal(INTERN.string_id("minimal")))
+    opts = []
+    for c in CATS:
+        opts.append(code.z == V.I(z3.If(minimal, TABLE["minimal"][c], TABLE["default"][c])))
+    return vbool(z3.Or(opts))
+
+
+CUR_SCHEME = SCHEME  # evaluated in the state in which the exception leaves
+SYSERR_NOW = f"doc_exit_code({SCHEME}, ApplicationResult.SYSTEM_ERROR)"
+AR = "pymarkdown/return_code_helper.py::ReturnCodeHelper."
+
+register(Contract(
+    key=AR + "__validate_return_code_scheme", properties=P,
+    ensures=["result is argument", "argument == 'default' or argument == 'minimal'"],
+    raises=[Raises("ValueError", when="not (argument == 'default' or argument == 'minimal')")],
+))
+
+register(Contract(
+    key=AR + "set_initial_state", properties=P + ["C17"],
+    # argparse `choices=` / `type=` let only None, 'default', 'minimal' through (assumed argparse contract)
+    requires=["scheme_ok(args.return_code_scheme)"],
+    types={"args": "Namespace", "properties": "ApplicationProperties"},
+    calls={"properties.get_string_property": Assumed(
+        "ApplicationProperties.get_string_property[mode.return_code_scheme]", returns="Optional[str]", pure=True,
+        raises=[Raises("ValueError")], ensures=["scheme_ok(result)"],
+        why="application_properties: with strict_mode=True a present value is returned only if valid_value_fn accepts it "
+            "(ReturnCodeHelper.__validate_return_code_scheme, proved to accept exactly 'default' and 'minimal'), otherwise ValueError; "
+            "an absent key yields the default None")},
+    ensures=[f"scheme_ok({SCHEME})",
+             # precedence: command line argument, then configuration, then 'default'
+             f"implies(args.return_code_scheme is not None, {SCHEME} is args.return_code_scheme)",
+             f"{SCHEME} is not None"],
+    raises=[Raises("ValueError", modifies=[], ensures=[f"{SCHEME} is old({SCHEME})"])],
+    modifies=["value"],
+))
+
+register(Contract(
+    key=MAIN + "__parse_arguments", properties=P,
+    requires=[f"{SCHEME} is None"],
+    types={"parse_arguments": "Namespace"},
+    calls={
+        "argparse.ArgumentParser": Assumed("argparse.ArgumentParser()", returns="ArgumentParser", fresh_result=True, why="argparse"),
+        "parser.add_argument": Assumed("ArgumentParser.add_argument", pure=True, why="argparse declaration"),
+        "parser.add_subparsers": Assumed("ArgumentParser.add_subparsers", pure=True, returns="SubParsers", fresh_result=True, why="argparse"),
+        "subparsers.add_parser": Assumed("SubParsers.add_parser", pure=True, why="argparse"),
+        "parser.print_help": Assumed("ArgumentParser.print_help", pure=True, why="argparse"),
+        "ApplicationPropertiesUtilities.add_default_command_line_arguments": Assumed("APU.add_default_command_line_arguments", pure=True, why="argparse declarations"),
+        "ApplicationLogging.add_default_command_line_arguments": Assumed("ApplicationLogging.add_default_command_line_arguments", pure=True, why="argparse declarations"),
+        "ReturnCodeHelper.add_command_line_arguments": Assumed("ReturnCodeHelper.add_command_line_arguments", pure=True, why="argparse declarations"),
+        "ExtensionManager.add_argparse_subparser": Assumed("ExtensionManager.add_argparse_subparser", pure=True, why="argparse declarations"),
+        "PluginManager.add_argparse_subparser": Assumed("PluginManager.add_argparse_subparser", pure=True, why="argparse declarations"),
+        "FileScanHelper.add_argparse_subparser": Assumed("FileScanHelper.add_argparse_subparser", pure=True, why="argparse declarations"),
+        "parser.parse_args": Assumed("ArgumentParser.parse_args", returns="Namespace", fresh_result=True, pure=True,
+                                     raises=[Raises("SystemExit", code="2")],
+                                     ensures=["scheme_ok(result.return_code_scheme)"],
+                                     why="argparse: an invalid command line exits with status 2 (== COMMAND_LINE_ERROR in both schemes); "
+                                         "--return-code-scheme has choices ['default','minimal'] so its value is None or one of them"),
+    },
+    ensures=["result.primary_subparser is not None", "result.primary_subparser != 'version'", "scheme_ok(result.return_code_scheme)",
+             "len(result.primary_subparser) > 0"],
+    raises=[Raises("SystemExit", ensures=["raised.code == 2 or raised.code == 0"])],
+    modifies=[],
+))
+
+ACH = "pymarkdown/application_configuration_helper.py::ApplicationConfigurationHelper."
+PMK = "pymarkdown/plugin_manager/plugin_manager.py::PluginManager."
+EMK = "pymarkdown/extension_manager/extension_manager.py::ExtensionManager."
+SYS_EXIT = Raises("SystemExit", ensures=[f"raised.code == {SYSERR_NOW}"])
+
+register(Assumed(ACH + "apply_configuration_layers", raises=[Raises("SystemExit", code=SYSERR), Raises("ValueError"), Raises("Exception")],
+                 modifies=["$properties_state"],
+                 why="configuration loading (C17 puts its layer order under contract); on a load error it calls the handle_error callback "
+                     "(PyMarkdownLint.__handle_error => SystemExit(SYSTEM_ERROR)) or raises"))
+register(Assumed("pymarkdown/application_logging.py::ApplicationLogging.pre_initialize_with_args", modifies=["$logging_state"], raises=[Raises("Exception")], why="logging set-up"))
+register(Assumed("pymarkdown/application_logging.py::ApplicationLogging.initialize", modifies=["$logging_state"], raises=[Raises("Exception")], why="logging set-up (bad --log-level raises)"))
+register(Assumed("pymarkdown/application_logging.py::ApplicationLogging.terminate", modifies=["$logging_state"], why="logging tear-down"))
+register(Assumed("pymarkdown/general/parser_logger.py::ParserLogger.sync_on_next_call", pure=True, why="logging"))
+register(Assumed(PMK + "initialize", raises=[Raises("BadPluginError"), Raises("ValueError")], modifies=["$plugin_registry", "number_of_scan_failures"],
+                 ensures=["self.number_of_scan_failures == 0"],
+                 why="plugin discovery and registration (C17 puts the enable/disable precedence under contract); zeroes the failure counter first (line 93)"))
+register(Assumed(PMK + "apply_configuration", raises=[Raises("Exception")], modifies=["$plugin_registry"], why="per-rule configuration (C17)"))
+register(Assumed(EMK + "initialize", raises=[Raises("Exception")], modifies=["$extension_registry"], why="extension discovery"))
+register(Assumed(EMK + "apply_configuration", raises=[Raises("Exception")], modifies=["$extension_registry"], why="extension configuration (C20)"))
+register(Assumed(PMK + "handle_argparse_subparser", returns="ApplicationResult", pure=True, ensures=["is_category(result)"],
+                 why="plugins sub-command: returns a member of ApplicationResult (SUCCESS or COMMAND_LINE_ERROR)"))
+register(Assumed(EMK + "handle_argparse_subparser", returns="ApplicationResult", pure=True, ensures=["is_category(result)"],
+                 why="extensions sub-command: returns a member of ApplicationResult"))
+register(Assumed(PMK + "argparse_subparser_name", returns="str", pure=True, why="constant"))
+register(Assumed(EMK + "argparse_subparser_name", returns="str", pure=True, why="constant"))
+register(Assumed("os.path.dirname", returns="str", pure=True, why="path arithmetic"))
+register(Assumed("os.path.realpath", returns="str", pure=True, why="path arithmetic"))
+register(Assumed("os.path.join", returns="str", pure=True, why="path arithmetic"))
+
+from pyvc.spec import REGISTRY as _R2
+_R2["$fields"].types.update({"PyMarkdownLint._PyMarkdownLint__properties": "ApplicationProperties",
+                             "PyMarkdownLint._PyMarkdownLint__extensions": "ExtensionManager",
+                             "PyMarkdownLint._PyMarkdownLint__plugins": "PluginManager"})
+_R2["$namespace"].types.update({"add_plugin": "Optional[List[str]]", "strict_configuration": "bool"})
+
+INIT_RAISES = [SYS_EXIT]
+for name in ("__set_initial_state",):
+    register(Contract(
+        key=MAIN + name, properties=P,
+        requires=[f"{SCHEME} is None", "scheme_ok(args.return_code_scheme)"],
+        types={"args": "Namespace"},
+        ensures=[f"scheme_ok({SCHEME})"],
+        raises=[Raises("SystemExit", ensures=[f"raised.code == {SYSERR_NOW}", f"scheme_ok({SCHEME})"]),
+                Raises("ValueError", ensures=[f"{SCHEME} is None"]), Raises("Exception", ensures=[f"{SCHEME} is None"])],
+        modifies=["value", "$properties_state", "$logging_state"],
+        calls={"ApplicationConfigurationHelper.apply_configuration_layers": ACH + "apply_configuration_layers"},
+    ))
+
+for name, extra in (("__initialize_plugin_manager", []), ("__apply_configuration_to_plugins", []), ("__initialize_plugins", []),
+                    ("__initialize_extensions", [])):
+    register(Contract(
+        key=MAIN + name, properties=P,
+        requires=[f"scheme_ok({SCHEME})"],
+        types={"args": "Namespace"},
+        raises=[SYS_EXIT] + ([Raises("ValueError")] if name == "__initialize_plugin_manager" else []),
+        modifies={"__initialize_extensions": ["$extension_registry"], "__apply_configuration_to_plugins": ["$plugin_registry"]}.get(
+            name, ["$plugin_registry", "number_of_scan_failures"]),
+        ensures=(["self.__plugins.number_of_scan_failures == 0"] if name in ("__initialize_plugin_manager", "__initialize_plugins") else []),
+    ))
+
+register(Contract(
+    key=MAIN + "__initialize_plugins_and_extensions", properties=P,
+    requires=[f"scheme_ok({SCHEME})"], types={"args": "Namespace"},
+    ensures=["self.__plugins.number_of_scan_failures == 0"],
+    # the plugins / extensions sub-commands end the run with the documented code of the category they return
+    raises=[Raises("SystemExit", ensures=[f"is_doc_code(raised.code, {SCHEME})"])],
+    modifies=["$plugin_registry", "$extension_registry", "number_of_scan_failures"],
+))
+
+register(Contract(
+    key=MAIN + "__initialize_subsystems", properties=P + ["C13"],
+    types={"args": "Namespace"},
+    ensures=[f"scheme_ok({SCHEME})", "result.primary_subparser is not None", "self.__plugins.number_of_scan_failures == 0"],
+    raises=[Raises("SystemExit", ensures=[f"scheme_ok({SCHEME})", f"is_doc_code(raised.code, {SCHEME})"]),
+            Raises("ValueError", ensures=[f"scheme_ok({SCHEME})"]), Raises("Exception", ensures=[f"scheme_ok({SCHEME})"])],
+    modifies=["value", "$properties_state", "$logging_state", "$plugin_registry", "$extension_registry", "number_of_scan_failures",
+              "__show_stack_trace"],
+    calls={"self.__properties.get_boolean_property": Assumed("ApplicationProperties.get_boolean_property", returns="bool", pure=True,
+                                                             raises=[Raises("ValueError")], why="typed getter of application_properties")},
+))
+
+AFS = "pymarkdown/application_file_scanner.py::ApplicationFileScanner."
+register(Assumed(AFS + "determine_files_to_scan_with_args", returns="Tuple[List[str], bool, bool]", pure=True, fresh_result=False,
+                 ensures=["forall(lambda a, b: implies(a < b, result[0][a] != result[0][b]), 0, len(result[0]))"],
+                 raises=[Raises("Exception")],
+                 why="TEMPORARY: file discovery (C19 puts determine_files_to_scan under contract): sorted, duplicate-free list; error flag; list-only flag"))
+
+register(Contract(
+    key=MAIN + "__find_files_to_scan", properties=P + ["C19"],
+    types={"args": "Namespace"},
+    ensures=["result[0] == (args.primary_subparser == 'scan-stdin')",
+             "forall(lambda a, b: implies(a < b, result[1][a] != result[1][b]), 0, len(result[1]))",
+             "implies(result[0], len(result[1]) == 0 and not result[2] and not result[3])"],
+    raises=[Raises("Exception")],
+    modifies=[],
+))
+
+register(Contract(
+    key=MAIN + "main", properties=P + ["C15"],
+    ghost={"g_scanned": "bool", "g_cat": "ApplicationResult", "g_exc": "bool", "g_listed": "bool", "g_nfiles": "int", "g_err": "bool"},
+    requires=["not g_scanned", "not g_exc", "not g_listed"],
+    types={"args": "Namespace"},
+    calls={
+        "self.__scan_files_if_no_errors": (MAIN + "__scan_files_if_no_errors", ["g_scanned = True", "g_cat = result"]),
+        "self.__find_files_to_scan": (MAIN + "__find_files_to_scan", ["g_listed = result[3]", "g_nfiles = len(result[1])", "g_err = result[2]"]),
+    },
+    ensures=["False"],   # main() never returns: it always leaves through ReturnCodeHelper.exit_application
+    raises=[Raises("SystemExit", ensures=[
+        # whatever happened, the exit code is an entry of the documented table for the selected scheme
+        f"is_doc_code(raised.code, {SCHEME})",
+        # a completed scan / fix exits with the code of its documented category
+        f"implies(g_scanned and not g_exc, raised.code == doc_exit_code({SCHEME}, g_cat))",
+        # --list-files: NO_FILES_TO_SCAN iff nothing is selected or an argument was in error (independent of argument order)
+        f"implies(g_listed and not g_exc, raised.code == doc_exit_code({SCHEME}, ApplicationResult.NO_FILES_TO_SCAN if (g_nfiles == 0 or g_err) else ApplicationResult.SUCCESS))",
+    ])],
+    modifies=["*"],
 ))
